@@ -3,14 +3,15 @@
 # Confirms: patch applies; workspace tests pass with it; demo fails with it; demo passes without it. Prints a summary line.
 wt=$1; sd=$2; crate=${3:-wow_world_messages}
 cd "$wt" || exit 9
-git checkout -q -- . ; rm -rf $crate/tests
+git checkout -q -- . ; git clean -fdq -- $crate/tests
 cmd=$(grep -h "cargo test" "$sd/README.md" | head -1 | sed 's/`//g; s/^.*cargo test/cargo test/')
 demo=$(ls "$sd"/*.rs | head -1)
 mkdir -p $crate/tests && cp "$demo" $crate/tests/
+demofile=$crate/tests/$(basename "$demo")
 sh -c "$cmd" > "$sd/confirm_demo_clean.log" 2>&1; clean=$?
 git apply "$sd/patch.diff" || { echo "SEED $sd: patch does not apply"; exit 9; }
 sh -c "$cmd" > "$sd/confirm_demo_patched.log" 2>&1; patched=$?
-rm -rf $crate/tests
+rm -f "$demofile"; git clean -fdq -- $crate/tests
 cargo test --offline --workspace --no-fail-fast > "$sd/confirm_suite_patched.log" 2>&1; suite=$?
 nfail=$(grep -c "\.\.\. FAILED" "$sd/confirm_suite_patched.log")
 npass=$(grep -c "\.\.\. ok" "$sd/confirm_suite_patched.log")
